@@ -111,6 +111,10 @@ func newSessionID() string {
 // cleaned up.
 func (conn *Conn) Serve() {
 	log.Debugf("%s: Connection Established", conn.sessionid)
+	// whatever the session still holds is released however it ends, a
+	// command that panics included
+	defer conn.Close()
+
 	// send welcome
 	conn.writeMessage(220, conn.server.WelcomeMessage)
 	// read commands
@@ -130,7 +134,6 @@ func (conn *Conn) Serve() {
 			break
 		}
 	}
-	conn.Close()
 	log.Debugf("%s: Connection Terminated", conn.sessionid)
 }
 
